@@ -456,6 +456,10 @@ SendStep(e) ==
             /\ Upd(e, [nd EXCEPT !.step = st2, !.usedpfx = @ \cup {aid}, !.qsent = @ + 1, !.sentpairs = @ \cup {<<e.dst, m.t>>}, !.lastSentTo = FSet(@, e.dst, now),
                         !.lk[aid].nann = @ + 1, !.lk[aid].anndst = @ \cup {e.dst}])
        ELSE /\ (IsBootBucketQuery(nd, m) => MDrift("bootstrap-bucket-phase-targets", l, BootPhaseNext(nd, e).ok))
+            \* the mechanisms account for every query a node emits: searches (above), the bootstrap's two phases, refresh rounds
+            /\ (isq => MDrift("every-query-is-accounted-for-by-a-mechanism", l,
+                              \/ IsBootBucketQuery(nd, m) \/ IsBootInitialQuery(nd, m)
+                              \/ (m.q = "find_node" /\ m.pfx = nd.raid /\ inStep /\ "cursor" \in DOMAIN nd.step)))
             /\ Upd(e, [nd EXCEPT !.step = st2, !.usedpfx = IF isq THEN @ \cup {aid} ELSE @, !.qsent = @ + (IF isq THEN 1 ELSE 0),
                              !.sentpairs = IF isq THEN @ \cup {<<e.dst, m.t>>} ELSE @,
                              !.lastSentTo = IF isq THEN FSet(@, e.dst, now) ELSE @,
